@@ -23,9 +23,9 @@ MODULE_J = "T_CrashJudge"
 
 TRACED = ("openat,open,creat,write,pwrite64,writev,pwritev,pwritev2,fsync,fdatasync,sync_file_range,ftruncate,truncate,"
           "fallocate,rename,renameat,renameat2,unlink,unlinkat,rmdir,mkdir,mkdirat,link,linkat,symlink,symlinkat,"
-          "copy_file_range,sendfile")
+          "copy_file_range,sendfile,utimensat,futimesat,utimes,utime")
 UNSUPPORTED = {"sync_file_range", "fallocate", "link", "linkat", "symlink", "symlinkat", "copy_file_range", "sendfile",
-               "pwritev2"}
+               "pwritev2", "utime"}
 
 
 class Inconclusive(lib.ToolError):
@@ -148,6 +148,7 @@ class CaseLog:
         self.isdir = set(self.dirs) | {""}
         self.events = []
         self.writes = {}
+        self.utimes = {}      # event index -> [sec, nsec] set by an utimensat call
 
     def ev(self, **kw):
         self.events.append(kw)
@@ -266,6 +267,33 @@ def parse_strace(log_path, ctx_dir):
             else:
                 cur.ev(op="fsync", name=sb[1])
             continue
+        if sc in ("utimensat", "futimesat", "utimes"):
+            # modification time = data for DiskCache (expiry); tag "t<event>", the value goes to events.json
+            if sc == "utimes":
+                p, times = resolve("", arg_str(a[0])), a[1]
+            else:
+                _, p = arg_fd(a[0])
+                if a[1] != "NULL":
+                    p = resolve(a[0], arg_str(a[1]))
+                times = a[2]
+            sb = sandbox_of(p or "")
+            if not sb or sb[0] != cur.id or (p or "").endswith(" (deleted)") or sb[1] in cur.isdir:
+                continue
+            toks = re.findall(r'UTIME_OMIT|UTIME_NOW|\{tv_sec=-?\d+, tv_[nu]sec=\d+\}', times)
+            if times == "NULL":
+                cur.ev(op="utime", name=sb[1], src="now")
+            elif len(toks) != 2:
+                raise Inconclusive(f"strace: cannot read the times of {sc} on {sb[1]}: {times[:80]}")
+            elif toks[1] == "UTIME_OMIT":
+                pass
+            elif toks[1] == "UTIME_NOW":
+                cur.ev(op="utime", name=sb[1], src="now")
+            else:
+                m = re.match(r'\{tv_sec=(-?\d+), tv_([nu])sec=(\d+)\}', toks[1])
+                idx = cur.ev(op="utime", name=sb[1])
+                cur.events[-1]["src"] = f"t{idx}"
+                cur.utimes[str(idx)] = [int(m.group(1)), int(m.group(3)) * (1000 if m.group(2) == "u" else 1)]
+            continue
         if sc in ("ftruncate", "truncate"):
             if sc == "ftruncate":
                 _, p = arg_fd(a[0])
@@ -352,7 +380,8 @@ def known_findings(ctx):
 
 # --------------------------------------------------------------------------- stage 1: models + cases
 MODEL_ROUTINES = [("index", False), ("res", False), ("disk", False), ("lru_fixed", False), ("journal_fixed", False),
-                  ("lru", True), ("lru_inplace", True), ("journal", True)]   # (routine, refutation expected)
+                  ("lru", True), ("lru_inplace", True), ("journal", True), ("journal_save", True),
+                  ("disk_nosync", True)]   # (routine, refutation expected)
 FS_CONSTS = {"FineLimit": 4096, "SampleSeed": 1, "SampleN": 8}
 
 
@@ -456,7 +485,7 @@ def run_histories(ctx, cases, ctxdir, tag="h"):
     if missing:
         raise Inconclusive(f"no system-call window recorded for cases {missing[:5]}")
     for cid, c in allc.items():
-        json.dump({"writes": c.writes}, open(os.path.join(ctxdir, cid, "events.json"), "w"))
+        json.dump({"writes": c.writes, "utimes": c.utimes}, open(os.path.join(ctxdir, cid, "events.json"), "w"))
     ctx.stage("history", cases=len(allc), fs_events=sum(len(c.events) for c in allc.values()), wall_s=round(time.time() - t, 2))
     return allc
 
@@ -582,6 +611,8 @@ def compare_shapes(ctx, shapes, cases, logs):
     for routine, per_save in shapes.items():
         # lru_fixed / journal_fixed: the shapes after fixes/F06a.patch / fixes/F06b.patch
         drv = "lru" if routine.startswith("lru") else "journal" if routine.startswith("journal") else routine
+        if routine == "disk_nosync":
+            continue      # not a shape the code may have
         for variants in per_save.values():
             for steps in variants:
                 model_units.setdefault(drv, set()).update(_units(steps))
